@@ -856,7 +856,7 @@ def gen_file_pattern(rng, exotic):
             r["meta"]["allday"] = True
     elif r["anchor"] is not None and rng.random() < 0.04:
         # anchors before 1970-01-02T00:00Z (an int start that small would be a time of day)
-        d0 = rng.choice([date(1969, 6, 2), date(1965, 3, 1), date(1970, 1, 2), date(1969, 12, 31)])
+        d0 = rng.choice([date(1969, 6, 2), date(1968, 6, 3), date(1970, 1, 2), date(1969, 12, 31)])   # (the zone tables begin in 1968)
         if r["days"]:
             wds = {e[0] for e in r["days"]}
             while d0.weekday() not in wds or d0 in (date(1970, 1, 1), date(1969, 12, 29)):
@@ -1425,9 +1425,10 @@ class LoadFamily(IcalFamily):
                 if any(reference(v, txt, a, b) != reference(v, txt, a, b, exact=True) for a, b in wins):
                     continue
                 if wins and v["rrule"] and EXOTIC and rng.random() < 0.04:
-                    # KF-PREDTSTART: a window before DTSTART
+                    # KF-PREDTSTART: a window before DTSTART (inside the years the zone tables cover)
                     per = PERIOD_S[r["freq"]] * r["interval"]
-                    wins[0] = [t0 - 3 * per, t0 - per]
+                    if t0 - 3 * per > PR.SCAN_LO + 60 * DAY:
+                        wins[0] = [t0 - 3 * per, t0 - per]
                 case = dict(origin="text", vevent=v, order=order, wins=wins)
             if not case["wins"]:
                 continue
